@@ -9,6 +9,7 @@ use std::collections::HashMap;
 use std::sync::atomic::{AtomicUsize, Ordering};
 use std::sync::{Arc, Mutex, OnceLock};
 use vmodel::gen;
+mod amm;
 use vmodel::*;
 
 // ------------------------------------------------------------------------------------------------
@@ -338,6 +339,24 @@ fn gen_arg(t: &mut Tape, a: &Arg, s: &[Vec<u64>], p: &[Vec<u64>]) -> Vec<u64> {
         Arg::WordNonZero => vec![gen::word(t).max(1)],
         Arg::UpTo(max) => vec![t.edgy(max)],
         Arg::Bit => vec![t.bool() as u64],
+        Arg::OddBand(n) => {
+            let mut v = t.expand(n);
+            v[n - 1] = t.range(0x6B85_1EB8_51EB_851F, 0x7EB8_51EB_851E_B851);
+            v[0] |= 1;
+            v
+        }
+        Arg::ExpDoubleReduction { base, modulus } => {
+            if t.bool() {
+                let ml = resolve(modulus, s, p);
+                let m = big(ml);
+                let x = big(resolve(base, s, p)) % &m;
+                let x_mont = (x << (64 * ml.len())) % &m;
+                let (off1, off2) = (t.below(15), t.below(16));
+                vec![amm::Amm::new(&m, ml.len()).search_double_reduction(&x_mont, off1, off2).0]
+            } else {
+                vec![t.below(4096)]
+            }
+        }
     }
 }
 
@@ -372,6 +391,15 @@ fn fix_arg(a: &Arg, mut v: Vec<u64>, s: &[Vec<u64>], p: &[Vec<u64>]) -> Vec<u64>
         }
         Arg::UpTo(max) => {
             v[0] = v[0].min(max);
+            v
+        }
+        Arg::OddBand(n) => {
+            v[0] |= 1;
+            v[n - 1] = v[n - 1].clamp(0x6B85_1EB8_51EB_851F, 0x7EB8_51EB_851E_B851);
+            v
+        }
+        Arg::ExpDoubleReduction { .. } => {
+            v[0] &= 4095;
             v
         }
         Arg::Bit => {
